@@ -9,7 +9,7 @@ CHECKS = {
          "At check time /repo/a2lfile and /repo/a2lmacros are copied to a scratch directory, specification.rs is replaced by specification_orig.rs, the a2lmacros dependency is pointed at the copied in-tree crate and the probe is built against it; the same probe is built against the shipped crate. Both run on the C04 space (every tag x slot x enum item x 6 versions and every single deviation), a stride of the C01 cases, every position-carrying child kind of RECORD_LAYOUT out of position order (in the middle, first, last) and every token mutation / truncation of the carriers (1e5 inputs quick) with strict on and off; per case the transcript (result, canonical Debug of the model, Display of every diagnostic, written text, check() count, written text after sort()) must hash equal. A regenerated crate that does not compile is a violation.",
          "equality of behaviour is established on the enumerated corpus only; the probe canonicalises the Debug form because hash maps inside generic IF_DATA print in a per-process order",
          "DESIGN.md 5/C20"),
- "C19": ("bounded-exhaustive enumeration of conforming instances and of single-edit mismatching definitions for 7 hand-written and 610 (thorough: 2598) generated macro invocations compiled with the in-tree a2lmacros; typed load/store/write round trips checked on every one",
+ "C19": ("bounded-exhaustive enumeration of conforming instances and of single-edit mismatching definitions for 7 hand-written and 638 (thorough: 2625) generated macro invocations compiled with the in-tree a2lmacros; typed load/store/write round trips checked on every one",
          "Six hand-written a2ml_specification! invocations (all scalars, char[n], arrays, enums with/without values, named/anonymous/nested structs, sequences incl. numeric ones, taggedstruct/taggedunion with blocks and repetition, references to earlier types, identical tags at different levels, colliding generated type names) plus one generated invocation per A2ML definition of the reference enumerator (depth 1 over all leaf types, arrays of arrays, sequences of arrays; thorough: also depth 2 over uint; each plain, with a named top-level type and with the first nested type declared by name first), all expanded by the in-tree macro crate. The generated text constant is parsed by an independent A2ML parser and compared with a hand-written plain form (generated ones: with the definition they were generated from); every enumerated instance (cap 120 / 400, in-file and built-in) must be valid, decode to Some(v), store/decode back to v, write the same payload tokens and survive update_a2ml + write + load on a new file and on loaded files without A2ML / with another A2ML block; instances of every single-edit variant of the definition decoded with the typed code never panic, give None when the data lacks something the specification requires and conforms under no reading, and - when the data also conforms to the specification and a value is returned - a value whose store + write reproduces the parsed content. A macro change whose expansion no longer compiles is reported as a violation by the driver.",
          "the specification set is fixed at build time (committed generated files); shapes the macro rejects at expansion time (arrays of enum / struct, anonymous struct without a tag to name it) cannot be observed; the structural comparison of stored vs parsed generic data is replaced by comparing written tokens and typed values (a tag without a member is represented differently by the two producers)",
          "DESIGN.md 5/C19"),
@@ -129,6 +129,24 @@ ROUND7 = {
  "C19": "Hand-written Spec7: enum / struct and taggedstruct / taggedunion sharing a name.",
 }
 
+# extensions of the eighth seeding round
+ROUND8 = {
+ "C01": "Hex literals up to 64 bits set in every float field.",
+ "C02": "Hex literals up to 64 bits set in every float field.",
+ "C04": "Generated float values are not all exact in single precision.",
+ "C05": "Edit documents whose module holds nothing but four elements of the kind under test.",
+ "C06": "A2ML / IF_DATA blocks closed by a wrong tag (module level, inside an element); end-of-input diagnostics of truncated documents name the line of the last token.",
+ "C08": "MOD_PAR on both sides with a shared SYSTEM_CONSTANT name in every combination of {absent, value 1, value 2}.",
+ "C11": "THIS.-prefixed names at every object position where the convention does not apply.",
+ "C12": "Function values of another data type than the axis under test; both limits exactly 0 with 0 well inside / well outside the range.",
+ "C14": "Modules with an A2ML block the library cannot interpret and 0..4 module-level IF_DATA blocks of which some fit a valid A2ML block.",
+ "C15": "Order stability includes the blocks that occur once (A2ML, MOD_COMMON, MOD_PAR, VARIANT_CODING); a start file with them between the lists and a merge partner that brings them against the canonical order.",
+ "C16": "Fault cases: main files that hold include directives only, over include files without tokens; empty and blank main files.",
+ "C17": "UTF-32 files with an invalid code unit in the middle / at the end; files ending inside a line comment with 12 last characters whose final encoded byte is a control code in some encoding.",
+ "C18": "Repaired defect 38d474b: definitions with a string repetition in front of valued tags / enums, 'conforming' taken from the definition as written; same-name declarations of the three other kinds around every other hoisted type.",
+ "C19": "A parsed tree that lacks a member or array element of the specification must give no value even when the text conforms; 638 (thorough 2625) generated specifications.",
+}
+
 def main():
     props = [json.loads(l)["id"] for l in open(os.path.join(HERE, "properties.jsonl"))]
     checks = []
@@ -139,6 +157,8 @@ def main():
                 text = text.rstrip() + " Added in the sixth seeding round: " + ROUND6[pid]
             if pid in ROUND7:
                 text = text.rstrip() + " Added in the seventh seeding round: " + ROUND7[pid]
+            if pid in ROUND8:
+                text = text.rstrip() + " Added in the eighth seeding round: " + ROUND8[pid]
             checks.append({
                 "property_id": pid,
                 "quick_cmd": f"./check {pid} --tier quick",
